@@ -286,7 +286,8 @@ def c04_r4(ctx):
         for rv in rets:
             exprs = [rv]
             # return self.locks[name]  -> what is stored there
-            if isinstance(rv, ast.Subscript):
+            if isinstance(rv, (ast.Subscript, ast.Name)):
+                # ... or a local bound to it (newlock = self.locks[name] = RamLock(); return newlock)
                 exprs = []
                 for st in ast.walk(f.node):
                     if isinstance(st, ast.Assign) and any(norm.canon(t) == norm.canon(rv) for t in st.targets):
@@ -339,10 +340,18 @@ def c04_r5(ctx):
         gal = norm.aliases(g_.node)
         if name != "run" and rets and all(v is not None and norm.canon(v, gal).startswith("self.index.writer(") for v in rets) and endless:
             getters.add(name)
+    # helpers that make one attempt: every return is self.index.writer(...) or None (the caller tests the result)
+    attempts = set()
+    for name, g_ in aw.methods.items():
+        rets = [r.value for r in returns_of(g_)]
+        gal = norm.aliases(g_.node)
+        vals = [v for v in rets if not (v is None or (isinstance(v, ast.Constant) and v.value is None))]
+        if name != "run" and name not in getters and vals and all(norm.canon(v, gal).startswith("self.index.writer(") for v in vals):
+            attempts.add(name)
 
     def obtains(v):
         t = norm.canon(v)
-        return "self.index.writer(" in t or any(t == "self.%s()" % g_ for g_ in getters)
+        return "self.index.writer(" in t or any(t == "self.%s()" % g_ for g_ in getters | attempts)
     # the local that holds the real writer: bound from self.index.writer(...) (and possibly self.writer first)
     wvars = [n for n, vals in norm.assigned_names(run.node).items() if any(v is not None and obtains(v) for v in vals)]
     wvar = wvars[0] if len(wvars) == 1 else None
